@@ -24,7 +24,7 @@ LEVEL = "fault_enumeration"
 ALPHABET = ["normal", "zero", "tiny", "huge", "overflow", "nan", "inf"]
 MODERATE = {"normal", "zero", "tiny", "huge"}
 RULE = ("fault enumeration: for each configuration in {failure threshold 0,1e-30,0.1,1e30} x {matrix epsilon 0,1e-6} x {Newton,eigh} "
-        "x {preconditioner interval 1,2} x {jit, pmap int16-quantised, sharded 2-device mesh} x {x64 on, off}, ALL words of length T "
+        "x {preconditioner interval 1,2} x {jit, pmap int16-quantised, sharded 2-device mesh} x {x64 on, off} (thorough: x graft {SGD, RMSProp, normalised AdaGrad}), ALL words of length T "
         "(T=3 quick: 343 words, 399 steps; thorough T=5 restricted to <=3 non-normal letters) over the alphabet "
         "{normal, zero, tiny 1e-12, huge 1e12, overflow 1e30, NaN entry, +-Inf entry} are replayed through one compiled step; "
         "evaluations = words; a word is non-trivial when it contains a rejected root attempt or a poisoned (NaN/Inf/overflow) step; "
@@ -41,16 +41,20 @@ def exhaustive(tier, counters):
   return counters.get("dropped_for_budget", 0) == 0
 
 
-def all_configs():
+def all_configs(tier="quick"):
   out = []
-  for x64, mode, thr, eps, eigh, interval in itertools.product(
-      [True, False], ["jit", "pmapq", "sharded"], [0.0, 1e-30, 0.1, 1e30], [0.0, 1e-6], [False, True], [1, 2]):
-    out.append({"x64": x64, "mode": mode, "thr": thr, "eps": eps, "eigh": eigh, "interval": interval})
+  grafts = [1] if tier == "quick" else [1, 3, 6]      # SGD; thorough adds RMSProp and normalised AdaGrad grafting
+  for x64, mode, thr, eps, eigh, interval, graft in itertools.product(
+      [True, False], ["jit", "pmapq", "sharded"], [0.0, 1e-30, 0.1, 1e30], [0.0, 1e-6], [False, True], [1, 2], grafts):
+    c = {"x64": x64, "mode": mode, "thr": thr, "eps": eps, "eigh": eigh, "interval": interval}
+    if graft != 1:
+      c["graft"] = graft
+    out.append(c)
   return out
 
 
 def shards(tier, seed):
-  cfgs = all_configs()
+  cfgs = all_configs(tier)
   T = 3 if tier == "quick" else 5
   out = []
   for x64 in (True, False):
@@ -83,7 +87,7 @@ def grads_for(depth, letter, seed):
 
 
 def make_runner(c):
-  cfg = dict(block_size=8, graft_type=1, start_preconditioning_step=1, merge_small_dims_block_size=1,
+  cfg = dict(block_size=8, graft_type=c.get("graft", 1), start_preconditioning_step=1, merge_small_dims_block_size=1,
              inverse_failure_threshold=c["thr"], matrix_epsilon=c["eps"], eigh=c["eigh"],
              preconditioning_compute_steps=c["interval"], learning_rate=0.1,
              beta2=c.get("beta2", 0.999))
